@@ -35,14 +35,56 @@ crediting a second `AccountState` copy that `executeTx` then overwrote — were 
 (fix: "name transactions credited a second copy of an account that executeTx overwrites"); the model is
 the repaired code and the theorems cover name transactions at full strength; the two former witnesses
 are kept as regression tests (`setOwner_owner_is_sender_conserves`, `name_owner_is_name_contract_conserves`).
-The other hypotheses are facts other properties/components guarantee and that the model does not carry:
-`Signable` (C04: the sender is a key account, not a contract, not aergo.name) and `FdTarget` (the real
-`CheckFeeDelegation` accepts only contracts; the stub VM accepts everything).
+The one other hypothesis is `SenderOK`, three facts about a *signed* transaction (C04) cut down to the tx
+shape each is needed for: a governance tx to aergo.name is not sent by aergo.name, a tx whose recipient is
+its own sender is not sent by a contract, a deployed contract's address is not the sender's. The first two
+are necessary (`sender_aergo_name_mints`, `contract_calling_itself_mints`: the model — and, by the
+correspondence run, the real `executeTx`, which never looks at signatures — mints coin without them).
+That a fee-delegation recipient is a contract is no longer assumed: the model carries the
+`CheckFeeDelegation` precondition (`fee_delegation_recipient_is_a_contract`).
 -/
 import Aergo.Lemmas.LedgerBlock
+import Aergo.Lemmas.LedgerFee
 
 namespace Aergo.Props.C01
 open Aergo.Ledger
+
+/-! ### tie T: the fee formulas of the model are the ones in /repo/fee/*.go
+
+`Aergo.Gen.Fee` is regenerated from fee/fee.go, fee/gas.go, fee/payload.go by `goext bigfn` on every run
+(big.Int exact, uint64/int64 wrapping, `init()` values as definitions, `zeroFee` as a parameter); a
+function that leaves the translated subset makes the translator fail. Every theorem below that mentions
+`txBaseFee`, `validateMaxFee`, `gasLimit` … is therefore a statement about the source's formulas. -/
+
+/-- **The model's fee functions are the generated ones** on the domain a node can reach: payload length
+< 2^63 (a Go `int`), gas limit < 2^64 (`uint64` field), gas price > 0 (else `big.Int.Div` panics), every
+fork version, zero-fee or not, every balance. Pairs are `(value, err ≠ nil)`. -/
+theorem fee_formulas_are_the_source (c : Ctx) (n gl bal usedFee sBal rBal : Nat) (isFD : Bool)
+    (hn : n < 2 ^ 63) (hgl : gl < 2 ^ 64) (hg : 0 < c.gasPrice) :
+    Aergo.Gen.Fee.TxGas c.zeroFee n = txGas c n ∧
+    Aergo.Gen.Fee.PayloadFee c.zeroFee n = payloadFee c n ∧
+    Aergo.Gen.Fee.MaxPayloadFee c.zeroFee n = maxPayloadFee c n ∧
+    Aergo.Gen.Fee.TxBaseFee c.zeroFee c.version c.gasPrice n = txBaseFee c n ∧
+    Aergo.Gen.Fee.GasEnabled c.zeroFee c.version = gasEnabled c ∧
+    (∀ b : Int, Aergo.Gen.Fee.MaxGasLimit b c.gasPrice = maxGasLimit b c.gasPrice) ∧
+    Aergo.Gen.Fee.TxMaxFee c.zeroFee c.version n gl bal c.gasPrice =
+      (match txMaxFee c n gl bal with
+       | none => (0, true)
+       | some f => ((f : Int), false)) ∧
+    Aergo.Gen.Fee.GasLimit c.zeroFee c.version isFD gl n c.gasPrice usedFee sBal rBal =
+      (match gasLimit c isFD gl n usedFee sBal rBal with
+       | some v => ((v : Int), false)
+       | none => (((if isFD || gl == 0 then 0 else gl : Nat) : Int), true)) :=
+  ⟨gen_TxGas c n hn, gen_PayloadFee c n hn, gen_MaxPayloadFee c n hn, gen_TxBaseFee c n hn, gen_GasEnabled c,
+   fun b => gen_MaxGasLimit b c.gasPrice hg, gen_TxMaxFee c n gl bal hn hg,
+   gen_GasLimit c isFD gl n usedFee sBal rBal hn hgl hg⟩
+
+/-- test: the generated definitions compute (version 3, gas price 2: base fee 2 × 100000; version 1, payload of
+300 bytes: 0.002 AERGO + 100 × 5000 GAER; a gas limit one below the tx gas is refused) -/
+example : Aergo.Gen.Fee.TxBaseFee false 3 2 0 = 200000 ∧
+    Aergo.Gen.Fee.TxBaseFee false 1 2 300 = 2000000000000000 + 100 * 5000000000000 ∧
+    Aergo.Gen.Fee.TxMaxFee false 3 0 99999 1000000 2 = (0, true) ∧
+    Aergo.Gen.Fee.GasLimit false 3 false 100001 0 2 200000 1000000 0 = (1, false) := by decide
 
 /-! ### a unit debited is credited exactly once -/
 
@@ -110,10 +152,23 @@ tx type (transfer, call, deploy, redeploy, multicall, fee delegation, stake, uns
 create/update/setOwner), every outcome (applied, failed with an ERROR receipt, rejected), every scripted
 VM behaviour — outside the one defect shape excluded by `leak = false`. -/
 theorem executeTx_conserves_partial (c : Ctx) (w : World) (bp : Nat) (tx : Tx)
-    (hsig : Signable w tx) (hfd : FdTarget w tx)
+    (hsig : SenderOK w tx)
     (hl : (executeTx c w bp tx).leak = false) :
     (executeTx c w bp tx).w.total + (executeTx c w bp tx).bp = w.total + bp :=
-  executeTx_total hsig hfd hl
+  executeTx_total hsig hl
+
+/-- `SenderOK` is what signature verification gives (C04 `Signable`: the sender is a key account — no code,
+not aergo.name — and a contract it deploys lives elsewhere), and strictly less: a contract or aergo.name as
+the sender of a tx *to another account* is covered by the theorem too. -/
+theorem signable_is_senderOK (w : World) (tx : Tx) (h : Signable w tx) : SenderOK w tx := h.senderOK
+
+/-- **The recipient of an executed fee-delegation transaction is a contract** — formerly the hypothesis
+`FdTarget`, now a consequence of the model's transcription of `CheckFeeDelegation`'s precondition (`GetABI`:
+"cannot find contract"): a FEEDELEGATION tx to an account without code is rejected, whatever else holds. -/
+theorem fee_delegation_recipient_is_a_contract (c : Ctx) (w : World) (bp : Nat) (tx : Tx) (r : Addr)
+    (ht : tx.type = .feeDelegation) (hr : tx.recipient = some r)
+    (hx : ∀ e, (executeTx c w bp tx).outcome ≠ .rejected e) : (w.acct r).code = true :=
+  fdTarget_enforced hx ht r hr
 
 /-! worlds and contexts used by the tests and witnesses below -/
 
@@ -130,16 +185,58 @@ def txTransfer : Tx := { type := .transfer, sender := 10, recipient := some 11, 
 def txStake : Tx :=
   { type := .governance, sender := 10, recipient := some 0, amount := 10, nonce := 1, payloadLen := 9, gov := .stake }
 
-private theorem fdTarget_of_type {w : World} {tx : Tx} (h : tx.type ≠ .feeDelegation) : FdTarget w tx :=
-  fun e => absurd e h
-
 /-- test (non-vacuity): the hypotheses hold for a fee-paying transfer and a stake, which are applied -/
-example : Signable w0 txTransfer ∧ FdTarget w0 txTransfer ∧
+example : SenderOK w0 txTransfer ∧
     (executeTx ctxPub w0 0 txTransfer).leak = false ∧ (executeTx ctxPub w0 0 txTransfer).outcome = .success ∧
     (executeTx ctxPub w0 0 txTransfer).bp = 100000 ∧
     (executeTx ctxPriv w0 0 txStake).outcome = .success := by
-  refine ⟨⟨by decide, by decide, by decide⟩, fdTarget_of_type (by decide),
-    by decide, by decide, by decide, by decide⟩
+  refine ⟨⟨by decide, by decide, by decide⟩, by decide, by decide, by decide, by decide⟩
+
+/-- a fee-delegation call to the contract 100, and the same to the plain account 11 -/
+def txFdOk : Tx :=
+  { type := .feeDelegation, sender := 10, recipient := some 100, amount := 0, nonce := 1, payloadLen := 50, script := { fee := 1000 } }
+
+/-- test: both sides of the fee-delegation precondition — to a contract the tx is applied (the contract pays
+base fee 100000 (the 50-byte payload is within the 200 free bytes) + VM fee 1000), to an account without code it is rejected -/
+example : (executeTx ctxPub w0 0 txFdOk).outcome = .success ∧ (executeTx ctxPub w0 0 txFdOk).w.bal 100 = 700000 - 101000 ∧
+    (executeTx ctxPub w0 0 { txFdOk with recipient := some 11 }).outcome = .rejected .other := by
+  refine ⟨by decide, by decide, by decide⟩
+
+/-- aergo.name itself sends `v1setOwner 11` to aergo.name (impossible for a signed tx: "aergo.name" is no key
+address) -/
+def txNameByName : Tx :=
+  { type := .governance, sender := 1, recipient := some 1, amount := 0, nonce := 1, payloadLen := 9, gov := .setOwner 11 }
+
+/-- **`SenderOK.notName` is necessary** (negation witness for the statement without it): with aergo.name as
+the sender of a name transaction, `executeTx`'s `sender` and `receiver` are two records of aergo.name; the
+500 units move to the new owner from the receiver's record, and the sender's stale record is what
+`sender.PutState()` writes: 500 units are minted. -/
+theorem sender_aergo_name_mints :
+    ¬ SenderOK w0 txNameByName ∧ (executeTx ctxPriv w0 0 txNameByName).outcome = .success ∧
+    (executeTx ctxPriv w0 0 txNameByName).leak = false ∧
+    (executeTx ctxPriv w0 0 txNameByName).w.total + (executeTx ctxPriv w0 0 txNameByName).bp = w0.total + 0 + 500 := by
+  refine ⟨fun h => h.notName rfl rfl rfl, by decide, by decide, by decide⟩
+
+/-- the contract 100 as the sender of a call to itself whose script sends 5 units to account 11 -/
+def txSelfCall : Tx :=
+  { type := .call, sender := 100, recipient := some 100, amount := 0, nonce := 1, payloadLen := 40
+    script := { fee := 10, xfers := [(11, 5)] } }
+
+/-- **`SenderOK.noCode` is necessary**: a contract "sending" a call to itself runs the VM on the receiver's
+record while the success branch writes only the sender's record (`sender.AccountID() == receiver.AccountID()`):
+the 5 units the script sent away are not debited — minted. -/
+theorem contract_calling_itself_mints :
+    ¬ SenderOK w0 txSelfCall ∧ (executeTx ctxPub w0 0 txSelfCall).outcome = .success ∧
+    (executeTx ctxPub w0 0 txSelfCall).leak = false ∧
+    (executeTx ctxPub w0 0 txSelfCall).w.total + (executeTx ctxPub w0 0 txSelfCall).bp = w0.total + 0 + 5 := by
+  refine ⟨fun h => absurd (h.noCode rfl) (by decide), by decide, by decide, by decide⟩
+
+/-- test: the sharpened hypothesis admits a contract as the sender of a transfer to somebody else, and
+the theorem's conclusion holds there -/
+example : SenderOK w0 { txTransfer with sender := 100 } ∧ ¬ Signable w0 { txTransfer with sender := 100 } ∧
+    (executeTx ctxPub w0 0 { txTransfer with sender := 100 }).outcome = .success ∧
+    (executeTx ctxPub w0 0 { txTransfer with sender := 100 }).w.total + (executeTx ctxPub w0 0 { txTransfer with sender := 100 }).bp = w0.total := by
+  refine ⟨⟨by decide, by decide, by decide⟩, fun h => absurd h.noCode (by decide), by decide, by decide⟩
 
 /-- `v1setOwner` naming the sender (10) as the new owner of the name contract -/
 def txSetOwnerSelf : Tx :=
@@ -212,8 +309,8 @@ theorem coinbaseReward_exact (w : World) (bp : Nat) (cb : Option Addr) :
 
 Full statement (false on the pinned tree because of the tx-level defect):
   `produceBlock w b = (w', rs) → (coinbase ≠ none → w'.total = w.total) ∧ (coinbase = none → w'.total + sumFees rs = w.total)`
-for every block. Proved: the same under `TxsOK`, i.e. every transaction of the block is `Signable`,
-`FdTarget` and not flagged `leak` at the state it is executed on. -/
+for every block. Proved: the same under `TxsOK`, i.e. every transaction of the block is `SenderOK` and not
+flagged `leak` at the state it is executed on. -/
 
 /-- **A produced block conserves the supply**: with a coinbase account Σ balances is unchanged; without
 one it shrinks by exactly the sum of the fees in the block's receipts. Any number of transactions, a
@@ -265,8 +362,8 @@ def blk1 : Block := { ctx := ctxPub, txs := [txTransfer, txGap], reward := { win
 is refused by the validator and, with the rejected tx dropped, conserves the supply -/
 example : TxsOK blk1.ctx { w := w0.beginBlock } blk1.txs ∧ validateBlock w0 blk1 = none ∧
     (produceBlock w0 blk1).1.total = w0.total ∧ sumFees (produceBlock w0 blk1).2 = 100000 := by
-  refine ⟨⟨⟨⟨by decide, by decide, by decide⟩, fdTarget_of_type (by decide), by decide⟩,
-    ⟨⟨by decide, by decide, by decide⟩, fdTarget_of_type (by decide), by decide⟩, trivial⟩,
+  refine ⟨⟨⟨⟨by decide, by decide, by decide⟩, by decide⟩,
+    ⟨⟨by decide, by decide, by decide⟩, by decide⟩, trivial⟩,
     by decide, by decide, by decide⟩
 
 /-! ### branches -/
